@@ -16,7 +16,10 @@ tier = "quick"
 for i, a in enumerate(sys.argv):
     if a == "--checks": checks = sys.argv[i+1].split(",")
     if a == "--tier": tier = sys.argv[i+1]
-srcwt = "/tmp/mut/%s" % pid       # where the sub-agent worked (its out*/ directories)
+srcbase = "/tmp/mut"
+for i, a in enumerate(sys.argv):
+    if a == "--src": srcbase = sys.argv[i+1]
+srcwt = "%s/%s" % (srcbase, pid)  # where the sub-agent worked (its out*/ directories)
 wt = "/tmp/mutv/%s" % pid         # a separate clean worktree used only for confirmation
 dst = "/verif/seeded/%s-%s" % (pid, x)
 os.makedirs(dst, exist_ok=True)
